@@ -480,7 +480,22 @@ fn cmd_pline(a: &str) -> String {
     match parse_xs(a) {
         None => "badcase".into(),
         Some(l) => guard(|| match l.parse::<Line>() {
-            Ok(l) => show_line(&l),
+            Ok(l) => {
+                // C13: the printed text must parse back to a record that is equal in the crate's own sense (`==`),
+                // also after the record has been used (interval() on its sequences)
+                if let Ok(printed) = catch_unwind(AssertUnwindSafe(|| l.to_string())) {
+                    if let Ok(l2) = printed.parse::<Line>() {
+                        if let Line::Header(h) = &l {
+                            let _ = h.reference_sequence().interval();
+                            let _ = h.query_sequence().interval();
+                        }
+                        if l2 != l {
+                            return format!("NOTEQUAL {:?} VS {:?}", l, l2);
+                        }
+                    }
+                }
+                show_line(&l)
+            }
             Err(e) => show_lineerr(&e),
         }),
     }
@@ -502,7 +517,21 @@ fn cmd_sections(a: &str) -> String {
                     ended = true;
                     break;
                 }
-                Some(x) => out.push(show_sitem(&x)),
+                Some(x) => {
+                    // C13: a section that has been stepped through must still equal a pristine copy of itself
+                    if let Ok(sec) = &x {
+                        let pristine = sec.clone();
+                        if let Ok(it) = sec.stepthrough() {
+                            for _ in it.take(CAP) {}
+                        }
+                        let reparsed: Option<chainfile::alignment::section::header::Record> =
+                            sec.header().to_string().parse().ok();
+                        if *sec != pristine || reparsed.as_ref() != Some(sec.header()) {
+                            out.push("NOTEQUAL".into());
+                        }
+                    }
+                    out.push(show_sitem(&x))
+                }
             }
         }
         out.push(if ended { "end".into() } else { "cap".into() });
